@@ -311,6 +311,8 @@ class Check:
             with open(path, "w") as fh:
                 fh.write(blob)
             print("VIOLATION property=%s replay=%s" % (self.pid, path))
+            # one more line for whoever reads a log without the replay file at hand
+            print("  what: kind=%s source=%s input=%s detail=%s" % (v.get("kind"), v.get("source"), json.dumps(v.get("input"), sort_keys=True)[:400], str(v.get("detail"))[:300]))
             rc = 1
             if len(printed) >= 5:
                 break
